@@ -300,6 +300,17 @@ def wl_sequence(ctx, rng, i):
                 kwf = {"name": "n", "external_references": [{"source_name": "g", "external_id": "2"}]}
                 G.call("factory:create", lambda: fac.create(stix2.v21.Identity, **kwf), defaults=defaults, kwargs=kwf)
                 G.call("factory:create-again", lambda: fac.create(stix2.v21.Identity, **kwf), defaults=defaults, kwargs=kwf)
+                # a single value (not a list) for a property whose default is a list; None; through an Environment
+                kws = {"name": "n", "external_references": {"source_name": "h", "external_id": "3"}, "object_marking_refs": M.TLP["red"]}
+                G.call("factory:create-single-values", lambda: fac.create(stix2.v21.Identity, **kws), defaults=defaults, kwargs=kws)
+                kwn = {"name": "n", "external_references": None}
+                G.call("factory:create-none", lambda: fac.create(stix2.v21.Identity, **kwn), defaults=defaults, kwargs=kwn)
+                env = stix2.Environment(factory=fac)
+                G.call("factory:Environment.create-single-values", lambda: env.create(stix2.v21.Identity, **kws), defaults=defaults, kwargs=kws)
+                first = G.call("factory:create-plain", lambda: fac.create(stix2.v21.Identity, name="n"), defaults=defaults)
+                if first is not None and hasattr(first, "get") and (len(first.get("object_marking_refs", [])) != 1 or len(first.get("external_references", [])) != 1):
+                    ctx.violation("factory-state-drift", "after earlier create() calls the factory hands out more than its configured defaults",
+                                  {"defaults": defaults, "created": json.loads(first.serialize())})
         # canonical JSON
         G.call("canonicalize:dict", lambda: canonicalize(d, utf8=False), data=d)
         # the objects created at the start are still what they were
@@ -316,7 +327,7 @@ def wl_sequence(ctx, rng, i):
 
 
 WORKLOADS = [
-    Workload("sequence", wl_sequence, quick=lambda: len(BASES) * 3, thorough=lambda: len(BASES) * 50),
+    Workload("sequence", wl_sequence, quick=lambda: len(BASES) * 3, thorough=lambda: len(BASES) * 300),
     __import__("stixmon.ambient", fromlist=["workload"]).workload("C13"),
 ]
 
